@@ -5,17 +5,22 @@
    jar : the defaultdict  (domain, port, path) -> {name: value}, as a sequence (dict insertion order, which is the
          order of the Cookie header) of [key |-> <<domain, port, path>>, items |-> << <<name, token>>, ... >>]
    flt : the configured filter, "all" (".*") or "get" ("~m GET")
-   The model transcribes what the code does, including its two known deviations from RFC 6265:
-     CodeDM    = stickycookie.domain_match = http.cookiejar.domain_match tried with and without the dots
-                 (RFC 2965 rules: the domain is located with rfind, a leading dot is required for sub-domains)
-     IsPrefix  = flow.request.path.startswith(path)                                                        *)
+   The model transcribes what the code does:
+     CodeDM    = stickycookie.domain_match: (since fix 7f27cbc3c: the dot-stripped domain must be a string suffix of
+                 the host, and) http.cookiejar.domain_match tried with and without the dots (RFC 2965 rules: the
+                 domain is located with rfind, a leading dot is required for sub-domains)
+     CodePM    = stickycookie.path_match (RFC 6265 5.1.4 on the path without query); before the fix: startswith
+   DomainRule / PathRule select the behaviour before ("rfind", "startswith") or after the fix ("suffix_and_rfind",
+   "rfc"); props/C54.py passes the values that describe the tree under test.                                 *)
 EXTENDS Mon_StickyCookie, TLC
 CONSTANTS SetOps,     \* sequence of [host, hostid, port, cookies |-> <<[name, hasdom, dom, domid, haspath, path, expired]>>]
                       \* (hostid / domid: the same strings as atoms; the model's tables are lower case throughout)
           ReqOps,     \* sequence of [host, port, path, get |-> BOOLEAN]
           Filters,    \* subset of {"all", "get"}
           MaxOps,     \* bound on the history length
-          MaxSets     \* bound on the number of responses in a history
+          MaxSets,    \* bound on the number of responses in a history
+          DomainRule, \* "rfind" | "suffix_and_rfind" | "dotsuffix_and_rfind"
+          PathRule    \* "startswith" | "rfc"
 VARIABLES flt, jar, ntok, ops, nsets, mon, obs
 vars == <<flt, jar, ntok, ops, nsets, mon, obs>>
 
@@ -43,7 +48,15 @@ RECURSIVE LStrip(_), RStrip(_)
 LStrip(s) == IF s # <<>> /\ s[1] = "." THEN LStrip(Tail(s)) ELSE s
 RStrip(s) == IF s # <<>> /\ s[Len(s)] = "." THEN RStrip(Front(s)) ELSE s
 \* stickycookie.domain_match(a, b)
-CodeDM(a, b) == CJ(a, b) \/ CJ(a, RStrip(LStrip(b)))
+\* "dotsuffix_and_rfind": the guard requires the stripped domain to equal the host or to end it after a "."
+DotSuffix(d, a) == a = d \/ (d # <<>> /\ Len(d) < Len(a) /\ IsSuffix(d, a) /\ a[Len(a) - Len(d)] = ".")
+CodeDM(a, b) == /\ DomainRule = "suffix_and_rfind" => IsSuffix(RStrip(LStrip(b)), a)
+                /\ DomainRule = "dotsuffix_and_rfind" => DotSuffix(RStrip(LStrip(b)), a)
+                /\ CJ(a, b) \/ CJ(a, RStrip(LStrip(b)))
+\* stickycookie.path_match(request_path, cookie_path) / request.path.startswith(path)
+CodePM(r, c) == IF PathRule = "startswith" THEN IsPrefix(c, r)
+                ELSE \/ r = c
+                     \/ IsPrefix(c, r) /\ ((c # <<>> /\ c[Len(c)] = "/") \/ (Len(r) > Len(c) /\ r[Len(c) + 1] = "/"))
 
 (* ---- the jar ---- *)
 KeyIdx(j, key) == IndexOf([i \in 1..Len(j) |-> j[i].key], key)
@@ -101,7 +114,7 @@ Request(r) ==
   /\ Live /\ ops < MaxOps
   /\ LET op == ReqOps[r]
          matched == flt = "all" \/ op.get
-         hit(e) == CodeDM(op.host, e.key[1]) /\ op.port = e.key[2] /\ IsPrefix(e.key[3], op.path)
+         hit(e) == CodeDM(op.host, e.key[1]) /\ op.port = e.key[2] /\ CodePM(op.path, e.key[3])
          att == IF ~matched THEN <<>>
                 ELSE Concat([k \in 1..Len(jar) |->
                                IF hit(jar[k]) THEN [i \in 1..Len(jar[k].items) |-> jar[k].items[i][2]] ELSE <<>>])
